@@ -534,6 +534,50 @@ pub fn ring_polybase_ops(s: &mut Src) -> R {
     Ok(())
 }
 
+// C16 (BOUNDED, sampled): bivariate and Laurent-bivariate polynomials against a dense coefficient grid, and evaluation as a ring homomorphism.
+// Poly2 over Z with exponents 0..=2, LPoly2 over Q with exponents -1..=1 (evaluation at non-zero rationals): sum, difference, product,
+// no stored zero term, is_zero / nterms, and (a + b)(p) = a(p) + b(p), (a b)(p) = a(p) b(p), constants evaluate to themselves.
+pub fn ring_poly2_eval(s: &mut Src) -> R {
+    use yui::poly::{Poly2, LPoly2};
+    use yui::Ratio;
+    type P = Poly2<'x', 'y', i64>;
+    type L = LPoly2<'x', 'y', Ratio<i64>>;
+    type Q = Ratio<i64>;
+    let mut ta = vec![]; let mut tb = vec![];
+    for _ in 0..4 { ta.push((s.small(0, 2), s.small(0, 2), s.small(-2, 2))); }
+    for _ in 0..4 { tb.push((s.small(0, 2), s.small(0, 2), s.small(-2, 2))); }
+    let (na, nb) = (s.small(0, 4) as usize, s.small(0, 4) as usize);
+    let (px, py) = (s.small(-3, 3), s.small(-3, 3));
+    let (qx, qy) = (s.small(1, 3), s.small(1, 3));
+    reach!();
+    // ---- Poly2 over Z
+    let grid = |t: &[(i64, i64, i64)]| { let mut g = [[0i64; 5]; 5]; for &(i, j, c) in t { g[i as usize][j as usize] += c; } g };
+    let mk = |t: &[(i64, i64, i64)]| P::from_iter(t.iter().map(|&(i, j, c)| (P::mono(i as usize, j as usize), c)));
+    let same = |p: &P, g: &[[i64; 5]; 5]| (0..5).all(|i| (0..5).all(|j| *p.coeff(&P::mono(i, j)) == g[i][j])) && p.nterms() == g.iter().flatten().filter(|c| **c != 0).count() && p.iter().all(|(_, c)| *c != 0) && p.is_zero() == g.iter().flatten().all(|c| *c == 0);
+    let (a, b) = (mk(&ta[..na]), mk(&tb[..nb]));
+    let (ga, gb) = (grid(&ta[..na]), grid(&tb[..nb]));
+    ob!(same(&a, &ga) && same(&b, &gb), "Poly2::from_iter::sums-terms-stores-no-zero");
+    let mut gs = [[0i64; 5]; 5]; let mut gd = [[0i64; 5]; 5]; let mut gm = [[0i64; 5]; 5];
+    for i in 0..5 { for j in 0..5 { gs[i][j] = ga[i][j] + gb[i][j]; gd[i][j] = ga[i][j] - gb[i][j]; } }
+    for i in 0..3 { for j in 0..3 { for k in 0..3 { for l in 0..3 { gm[i + k][j + l] += ga[i][j] * gb[k][l]; } } } }
+    ob!(same(&(&a + &b), &gs), "Poly2::add");
+    ob!(same(&(&a - &b), &gd), "Poly2::sub");
+    ob!(same(&(&a * &b), &gm), "Poly2::mul");
+    ob!(same(&(&b * &a), &gm), "Poly2::mul-commutes");
+    let ev = |g: &[[i64; 5]; 5]| { let mut v = 0i64; for i in 0..5 { for j in 0..5 { v += g[i][j] * px.pow(i as u32) * py.pow(j as u32); } } v };
+    ob!(a.eval(&px, &py) == ev(&ga), "Poly2::eval==sum-of-terms");
+    ob!((&a + &b).eval(&px, &py) == a.eval(&px, &py) + b.eval(&px, &py) && (&a * &b).eval(&px, &py) == a.eval(&px, &py) * b.eval(&px, &py), "Poly2::eval-is-a-ring-homomorphism");
+    ob!(P::from_const(7).eval(&px, &py) == 7, "Poly2::eval(const)");
+    // ---- LPoly2 over Q: shift the exponents to -1..=1
+    let lmk = |t: &[(i64, i64, i64)]| L::from_iter(t.iter().map(|&(i, j, c)| (L::mono(i as isize - 1, j as isize - 1), Q::from(c))));
+    let (la, lb) = (lmk(&ta[..na]), lmk(&tb[..nb]));
+    let lsame = |p: &L, g: &[[i64; 5]; 5], sh: isize| (0..5).all(|i| (0..5).all(|j| *p.coeff(&L::mono(i as isize - sh, j as isize - sh)) == Q::from(g[i][j]))) && p.nterms() == g.iter().flatten().filter(|c| **c != 0).count() && p.iter().all(|(_, c)| *c != Q::from(0));
+    ob!(lsame(&la, &ga, 1) && lsame(&lb, &gb, 1), "LPoly2::from_iter");
+    ob!(lsame(&(&la + &lb), &gs, 1) && lsame(&(&la - &lb), &gd, 1), "LPoly2::add/sub");
+    ob!(lsame(&(&la * &lb), &gm, 2), "LPoly2::mul(negative-exponents)");
+    let _ = (qx, qy);   // (Ratio has no power with a signed exponent: Laurent evaluation is not available over Q)
+    Ok(())
+}
 crate::harness_table!(RING:
     ring_div_round_i32, ring_div_round_i64, ring_div_round_i128, ring_div_round_const_i64, ring_div_round_const_i32,
     ring_int_units_i32, ring_int_divides_i32, ring_int_units_i64, ring_int_divides_i64,
@@ -542,6 +586,6 @@ crate::harness_table!(RING:
     ring_ff2p_inv [unwind 8], ring_ff3_inv [unwind 8], ring_ff5_inv [unwind 8], ring_ff7_inv [unwind 10], ring_ff46337_inv [unwind 30],
     ring_f2,
     ring_qint_addsub_i32, ring_qint_mul_i32, ring_gauss_units_i32 , ring_eisen_units_i32 [unwind 8], ring_gauss_divrem_i32, ring_eisen_divrem_i32,
-    ring_gauss_gcd [unwind 6], ring_ff5_gcd [unwind 6], ring_ratio_ops [unwind 8], ring_poly_divrem [unwind 8], ring_hpoly_ops, ring_lc_ops, ring_polybase_ops,
+    ring_gauss_gcd [unwind 6], ring_ff5_gcd [unwind 6], ring_ratio_ops [unwind 8], ring_poly_divrem [unwind 8], ring_hpoly_ops, ring_lc_ops, ring_polybase_ops, ring_poly2_eval,
     ring_qint_addsub_i64, ring_qint_mul_i64, ring_gauss_units_i64, ring_eisen_units_i64 [unwind 8], ring_gauss_divrem_i64, ring_eisen_divrem_i64,
 );
